@@ -1316,8 +1316,10 @@ class Router:
                         sought_gn_addr, []).append(buffered_request)
                 return
             # Create or fetch LocTE and set ls_pending
-            entry = self.location_table.ensure_entry(sought_gn_addr)
-            entry.ls_pending = True
+            # Under the table lock: a concurrent purge must not drop the placeholder before it is marked pending.
+            with self.location_table.loc_t_lock:
+                entry = self.location_table.ensure_entry(sought_gn_addr)
+                entry.ls_pending = True
             self._ls_packet_buffers[sought_gn_addr] = (
                 [buffered_request] if buffered_request is not None else []
             )
